@@ -143,6 +143,7 @@ def real_path(proto, readers, kind):
         for cuts in [(), (n // 3,), (n // 2,), (n - 4,), (5, n // 2), (bounds_[0],), tuple(bounds_), (bounds_[0] - 2, bounds_[0])]:
             chunks = HC.split(stream, cuts)
             w = {"sub": "real", "proto": proto, "readers": list(readers), "chunks": chunks, "expect": expect}
+            ctx.intend(w)
             loop = asyncio.new_event_loop()
             asyncio.set_event_loop(loop)
             try:
@@ -205,6 +206,7 @@ def noise_between_path(proto, readers, kind, k):
             cuts = tuple(sorted(set(c for c in cuts if 0 < c < len(stream))))
             chunks = HC.split(stream, cuts)
             w = {"sub": "real", "proto": proto, "readers": list(readers), "chunks": chunks}
+            ctx.intend(w)
             refr = make_reader(sel)
             exp = []
             for ch in chunks:
